@@ -6,6 +6,8 @@
 (* enumerates it completely, partitioned over several TLC processes.        *)
 EXTENDS SymClass
 
+CONSTANT Which       \* name of the program class this configuration enumerates (see BaseOf)
+
 (* rationals *)
 R(n, d) == <<n, d>>
 C5  == {R(-2,1), R(-1,1), R(0,1), R(1,1), R(2,1)}
@@ -33,34 +35,43 @@ QMults == {R(-1,1), R(2,1), R(-1,2)}
 QAdds  == {R(1,1), R(-2,1)}
 QExps  == {8, -8}
 
-(* ---- program classes (Base) ---- *)
-(* Lin3: one linear line over 3 variables, 7 coefficients, 4 constants, 5 comparators *)
-BaseLin3 == Sys1(LinLines(C7, K4, AllOps))
-(* Lin2: one linear line over 2 variables, richer numbers (1/4, -3/2: thirds appear when solved) *)
-BaseLin2 == Sys1(LinLines(C9, K5, AllOps))
-(* Lin2x2: two linear lines over 2 variables *)
-BaseLin2x2 == Sys2(LinLines(C5h, {R(1,1)}, AllOps), LinLines(C3, {R(0,1), R(-1,1)}, AllOps))
-(* Rat2 / Rat3: one single-factor rational line *)
-BaseRat2 == Sys1(RatLines(A5, K4, B3, AllOps))
-BaseRat3 == Sys1(RatLines(A3, K3, B2, AllOps))
-(* Mix2: a rational line with a linear line, and two rational lines *)
-RatSmall == RatLines(A2, {R(1,1)}, {R(0,1)}, AllOps)
-LinSmall == LinLines(C3, K2, {"<=", ">", "=="})
-BaseMix2 == Sys2(RatSmall, LinSmall) \cup Sys2(RatSmall, RatSmall)
-(* Design: small class for the model check of the rewrite machine (depth 2) *)
-BaseDesign == Sys1(LinLines(C3, K2, AllOps)) \cup Sys1(RatSmall)
-              \cup Sys2(LinLines({R(-1,1), R(2,1)}, {R(1,1)}, {"<", ">="}), LinLines(C3, {R(0,1)}, {"<=", "=="}))
-
-(* matrices for linear_symbolic: A x = b /\ G x <= h *)
+(* ---- program classes ---- *)
+(* TLC evaluates every constant definition without parameters when it starts, *)
+(* so the (large) classes are the arms of an operator WITH a parameter and     *)
+(* only the class named by the configuration is built:  Base <- TheBase.       *)
+C3u == {R(-1,1), R(0,1), R(1,1)}
+RatSmall(u) == RatLines(A2, {R(1,1)}, {R(0,1)}, AllOps)
+LinSmall(u) == LinLines(C3, K2, {"<=", ">", "=="})
 MV == {-1, 0, 2}
 MR == {-1, 0, 1}
-BaseMat == Mats(MV, MR, 0, 1) \cup Mats(MV, MR, 1, 0) \cup Mats(MV, MR, 1, 1) \cup Mats(MV, MR, 0, 2)
-(* consistent equality systems for solve *)
 EV2 == {-2, -1, 0, 1, 2}
-BaseEqs2 == EqSystems(EV2, MR, 1) \cup EqSystems(EV2, MR, 2)
-BaseEqs3 == EqSystems(MV, MR, 1) \cup EqSystems(MV, MR, 2)
-(* bounds for symbolic_bounds (half units) *)
-BaseBnd2 == ValidBnds({-3, 0, 1, 4})
-BaseBnd3 == ValidBnds({-3, 0, 4})
-Nothing == {}
+
+BaseOf(which) ==
+  CASE which = "Lin3" ->       \* one linear line over 3 variables, 7 coefficients, 4 constants, 5 comparators
+         Sys1(LinLines(C7, K4, AllOps))
+    [] which = "Lin2" ->       \* one linear line over 2 variables, richer numbers (1/4, -3/2: thirds appear when solved)
+         Sys1(LinLines(C9, K5, AllOps))
+    [] which = "Lin2x2" ->     \* two linear lines over 2 variables; the two line sets overlap, so the class contains
+                               \* duplicated lines, opposite pairs (e <= c with e >= c, e < c with e > c), parallel bounds
+         Sys2(LinLines(C5h, {R(1,1)}, AllOps), LinLines(C3u, {R(1,1), R(-1,1)}, AllOps))
+    [] which = "Rat2" ->       \* one single-factor rational line, 2 variables
+         Sys1(RatLines(A5, K4, B3, AllOps))
+    [] which = "Rat3" ->       \* one single-factor rational line, 3 variables
+         Sys1(RatLines(A3, K3, B2, AllOps))
+    [] which = "Mix2" ->       \* a rational line with a linear line, and two rational lines
+         Sys2(RatSmall(0), LinSmall(0)) \cup Sys2(RatSmall(0), RatSmall(0))
+    [] which = "Design" ->     \* small class for the model check of the rewrite machine (depth 2)
+         Sys1(LinLines(C3, K2, AllOps)) \cup Sys1(RatSmall(0))
+         \cup Sys2(LinLines({R(-1,1), R(2,1)}, {R(1,1)}, {"<", ">="}), LinLines(C3, {R(0,1)}, {"<=", "=="}))
+    [] which = "Mat" ->        \* matrices for linear_symbolic: A x = b /\ G x <= h
+         Mats(MV, MR, 0, 1) \cup Mats(MV, MR, 1, 0) \cup Mats(MV, MR, 1, 1) \cup Mats(MV, MR, 0, 2)
+    [] which = "Eqs2" ->       \* consistent equality systems for solve, 2 variables (square and under-determined)
+         EqSystems(EV2, MR, 1) \cup EqSystems(EV2, MR, 2)
+    [] which = "Eqs3" ->       \* consistent equality systems for solve, 3 variables (under-determined)
+         EqSystems(MV, MR, 1) \cup EqSystems(MV, MR, 2)
+    [] which = "Bnd2" ->       \* bounds for symbolic_bounds (half units)
+         ValidBnds({-3, 0, 1, 4})
+    [] which = "Bnd3" ->
+         ValidBnds({-3, 0, 4})
+TheBase == BaseOf(Which)
 =============================================================================
